@@ -1,1 +1,9 @@
 //! shared helpers for the checks in this crate
+//!
+//! * `json`   — JSON text writer with explicit key orders, duplicate-preserving reader
+//! * `schema` — event schemas written as data from the Matrix specification (C18)
+//! * `obs`    — observation of ruma's event enums through the public API (C18)
+
+pub mod json;
+pub mod obs;
+pub mod schema;
